@@ -37,8 +37,6 @@ structure EnvGood (ρ : Env) (tm : Name) : Prop where
   nonNull : ρ "GraphQLNonNull" = .builtin .nonNull
   cast : ρ "cast" = .builtin .cast
   tlist : ρ "List" = .builtin .typingList
-  ifaceT : ρ "GraphQLInterfaceType" = .builtin .interfaceT
-  objT : ρ "GraphQLObjectType" = .builtin .objectT
   undefined : ρ "Undefined" = .builtin .undefined
   directive : ρ "GraphQLDirective" = .builtin .directive
   schema : ρ "GraphQLSchema" = .builtin .schema
@@ -226,16 +224,16 @@ theorem evalLookups_gen {ρ : Env} {tm : Name} (hρ : EnvGood ρ tm) (hs : List 
     simp [evalLookups, evalLookup, hρ.tm, hl, ih]
 
 theorem evalNames_gen {ρ : Env} {tm : Name} (hρ : EnvGood ρ tm) (hs : List (String × Head)) (want : Kind) (cls : Name)
-    (b : Builtin) (hcls : ρ cls = .builtin b) (hb : typeParamOK (.builtin b) = true)
+    (hcls : ρ cls ≠ .unbound)
     (ns : List Name) (h : namesOK hs want ns = true) : evalNames ρ hs want (genNames tm cls ns) = .ok ns := by
   cases ns with
   | nil => rfl
   | cons n rest =>
     show evalNames ρ hs want (.thunk "cast" "List" cls tm (n :: rest)) = _
     simp only [evalNames]
-    rw [callee_eq hρ.cast (by simp), callee_eq hρ.tlist (by simp), callee_eq hcls (by simp),
+    rw [callee_eq hρ.cast (by simp), callee_eq hρ.tlist (by simp), callee_bound hcls,
       evalLookups_gen hρ hs want (n :: rest) h]
-    simp [require, hb, List.map_map, Function.comp_def]
+    simp [require, List.map_map, Function.comp_def]
 
 /-! ### statement 1: constructing the named types -/
 
@@ -359,16 +357,16 @@ theorem force_gen {ρ : Env} {tm : Name} (hρ : EnvGood ρ tm) (hs : List (Strin
   | object n d is fs =>
     unfold typeOK at ht
     have ⟨h1, h2⟩ := and_true_split ht
-    simp [objOf, force, evalNames_gen hρ hs .interface "GraphQLInterfaceType" .interfaceT hρ.ifaceT rfl is h1,
+    simp [objOf, force, evalNames_gen hρ hs .interface "GraphQLInterfaceType" (hρ.clsBound .interface) is h1,
       evalFields_gen hρ hs fs h2, wrapThunk, clearOneOf]
   | interface n d is fs =>
     unfold typeOK at ht
     have ⟨h1, h2⟩ := and_true_split ht
-    simp [objOf, force, evalNames_gen hρ hs .interface "GraphQLInterfaceType" .interfaceT hρ.ifaceT rfl is h1,
+    simp [objOf, force, evalNames_gen hρ hs .interface "GraphQLInterfaceType" (hρ.clsBound .interface) is h1,
       evalFields_gen hρ hs fs h2, wrapThunk, clearOneOf]
   | union n d ms =>
     unfold typeOK at ht
-    simp [objOf, force, evalNames_gen hρ hs .object "GraphQLObjectType" .objectT hρ.objT rfl ms ht, wrapThunk, clearOneOf]
+    simp [objOf, force, evalNames_gen hρ hs .object "GraphQLObjectType" (hρ.clsBound .object) ms ht, wrapThunk, clearOneOf]
   | enum n d vs => rfl
   | input n d fs o =>
     unfold typeOK at ht
